@@ -43,7 +43,7 @@ use temporal_provider::prelude::*;
 use tzif::{
     self,
     data::{
-        posix::{DstTransitionInfo, PosixTzString, TransitionDay, ZoneVariantInfo},
+        posix::{PosixTzString, TransitionDate, TransitionDay, ZoneVariantInfo},
         time::Seconds,
         tzif::{DataBlock, LocalTimeTypeRecord, TzifData, TzifHeader},
     },
@@ -365,31 +365,37 @@ fn resolve_posix_tz_string_for_epoch_seconds(
         });
     };
 
-    let start = &dst_variant.start_date;
-    let end = &dst_variant.end_date;
-
-    // TODO: Resolve safety issue around utils.
-    //   Using f64 is a hold over from early implementation days and should
-    //   be moved away from.
-
-    let (is_transition_day, transition) =
-        cmp_seconds_to_transitions(&start.day, &end.day, seconds)?;
-
-    let transition =
-        compute_tz_for_epoch_seconds(is_transition_day, transition, seconds, dst_variant);
     let std_offset = LocalTimeRecord::from_standard_time(&posix_tz_string.std_info).offset;
     let dst_offset = LocalTimeRecord::from_daylight_savings_time(&dst_variant.variant_info).offset;
-    let (old_offset, new_offset) = match transition {
-        TransitionType::Dst => (std_offset, dst_offset),
-        TransitionType::Std => (dst_offset, std_offset),
-    };
-    let transition = match transition {
-        TransitionType::Dst => start,
-        TransitionType::Std => end,
-    };
-    let year = utils::epoch_time_to_epoch_year(seconds * 1000);
-    let year_epoch = i64::from(utils::epoch_days_for_year(year)) * 86400;
-    let leap_day = utils::mathematical_in_leap_year(seconds * 1000) as u16;
+
+    // The rule's two transitions are computed as instants and compared with `seconds`: daylight
+    // time starts at `start_date` read on the standard clock and ends at `end_date` read on the
+    // daylight clock. The civil year is taken on the standard clock; a transition of the previous
+    // or next civil year can still be the latest one at or before `seconds`.
+    let year = utils::epoch_time_to_epoch_year((seconds + std_offset) * 1000);
+    let mut latest: Option<(i64, i64)> = None;
+    for y in [year - 1, year, year + 1] {
+        let starts = transition_local_seconds(&dst_variant.start_date, y) - std_offset;
+        let ends = transition_local_seconds(&dst_variant.end_date, y) - dst_offset;
+        for (epoch, offset) in [(starts, dst_offset), (ends, std_offset)] {
+            if epoch <= seconds && latest.map_or(true, |(latest_epoch, _)| latest_epoch < epoch) {
+                latest = Some((epoch, offset));
+            }
+        }
+    }
+    let (transition_epoch, offset) = latest
+        .ok_or_else(|| TemporalError::general("No transition precedes the provided time."))?;
+    Ok(TimeZoneOffset {
+        offset,
+        transition_epoch: Some(transition_epoch),
+    })
+}
+
+/// The local clock reading, in seconds since the epoch, at which a POSIX rule date takes effect
+/// in `year`.
+fn transition_local_seconds(transition: &TransitionDate, year: i32) -> i64 {
+    let year_epoch_days = i64::from(utils::epoch_days_for_year(year));
+    let leap_day = (utils::mathematical_days_in_year(year) - 365) as u16;
 
     let days = match transition.day {
         TransitionDay::NoLeap(day) if day > 59 => day - 1 + leap_day,
@@ -397,39 +403,18 @@ fn resolve_posix_tz_string_for_epoch_seconds(
         TransitionDay::WithLeap(day) => day,
         TransitionDay::Mwd(month, week, day) => {
             let days_to_month = utils::month_to_day((month - 1) as u8, leap_day);
-            let days_in_month = u16::from(utils::iso_days_in_month(year, month as u8) - 1);
+            let days_in_month = u16::from(utils::iso_days_in_month(year, month as u8));
 
-            // Month starts in the day...
-            let day_offset = (u16::from(utils::epoch_seconds_to_day_of_week(year_epoch))
-                + days_to_month)
-                .rem_euclid(7);
+            // The day of the week the month starts on (0 = Sunday).
+            let day_offset =
+                (u16::from(utils::epoch_seconds_to_day_of_week(year_epoch_days * 86400))
+                    + days_to_month)
+                    .rem_euclid(7);
 
-            // EXAMPLE:
-            //
-            // 0   1   2   3   4   5   6
-            // sun mon tue wed thu fri sat
-            // -   -   -   0   1   2   3
-            // 4   5   6   7   8   9   10
-            // 11  12  13  14  15  16  17
-            // 18  19  20  21  22  23  24
-            // 25  26  27  28  29  30  -
-            //
-            // The day_offset = 3, since the month starts on a wednesday.
-            //
-            // We're looking for the second friday of the month. Thus, since the month started before
-            // a friday, we need to start counting from week 0:
-            //
-            // day_of_month = (week - u16::from(day_offset <= day)) * 7 + day - day_offset = (2 - 1) * 7 + 5 - 3 = 9
-            //
-            // This works if the month started on a day before the day we want (day_offset <= day). However, if that's not the
-            // case, we need to start counting on week 1. For example, calculate the day of the month for the third monday
-            // of the month:
-            //
-            // day_of_month = (week - u16::from(day_offset <= day)) * 7 + day - day_offset = (3 - 0) * 7 + 1 - 3 = 19
-            let mut day_of_month = (week - u16::from(day_offset <= day)) * 7 + day - day_offset;
-
-            // If we're on week 5, we need to clamp to the last valid day.
-            if day_of_month > days_in_month - 1 {
+            // Zero-based day of the month of the first `day` weekday, then `week - 1` weeks later;
+            // week 5 means the last such weekday, so step back while past the end of the month.
+            let mut day_of_month = (day + 7 - day_offset).rem_euclid(7) + (week - 1) * 7;
+            while day_of_month > days_in_month - 1 {
                 day_of_month -= 7
             }
 
@@ -437,13 +422,7 @@ fn resolve_posix_tz_string_for_epoch_seconds(
         }
     };
 
-    // Transition time is on local time, so we need to add the UTC offset to get the correct UTC timestamp
-    // for the transition.
-    let transition_epoch = year_epoch + i64::from(days) * 86400 + transition.time.0 - old_offset;
-    Ok(TimeZoneOffset {
-        offset: new_offset,
-        transition_epoch: Some(transition_epoch),
-    })
+    (year_epoch_days + i64::from(days)) * 86400 + transition.time.0
 }
 
 /// Resolve the footer of a tzif file.
@@ -502,29 +481,6 @@ fn resolve_posix_tz_string(
             Ok(LocalTimeRecord::from_standard_time(&posix_tz_string.std_info).into())
         }
     }
-}
-
-fn compute_tz_for_epoch_seconds(
-    is_transition_day: bool,
-    transition: TransitionType,
-    seconds: i64,
-    dst_variant: &DstTransitionInfo,
-) -> TransitionType {
-    if is_transition_day && transition == TransitionType::Dst {
-        let time = utils::epoch_ms_to_ms_in_day(seconds * 1_000) / 1_000;
-        let transition_time = dst_variant.start_date.time.0 - dst_variant.variant_info.offset.0;
-        if i64::from(time) < transition_time {
-            return TransitionType::Std;
-        }
-    } else if is_transition_day {
-        let time = utils::epoch_ms_to_ms_in_day(seconds * 1_000) / 1_000;
-        let transition_time = dst_variant.end_date.time.0 - dst_variant.variant_info.offset.0;
-        if i64::from(time) < transition_time {
-            return TransitionType::Dst;
-        }
-    }
-
-    transition
 }
 
 /// The month, week of month, and day of week value built into the POSIX tz string.
